@@ -1,2 +1,15 @@
-use crate::runner::Session;
-pub fn c12_world(_s: &mut Session) {}
+//! WORLD clause of C12: rejection carries the configured policy.
+use crate::monitors::Stats;
+use crate::props::worldprops::*;
+use crate::runner::*;
+use crate::scen::*;
+
+pub fn c12_world(s: &mut Session) {
+    let nontrivial: fn(&Stats) -> bool = |st| st.c12_clause > 0;
+    let classes: fn(&Stats) -> Vec<String> = |st| if st.c12_clause > 0 { vec!["first_htlc_rejected_by_fee_or_expiry".into()] } else { vec![] };
+    let case = world_case("C12", nontrivial, classes);
+    s.regress::<Scenario, _>("world", &case);
+    let prof = Profile { w_reject: 45, w_under: 10, w_nontramp: 0, w_hash_mismatch: 0, w_crash: 1, write_faults: false, extreme_cfg: true, max_parts: 3, ..Profile::default() };
+    let n = s.tier.pick(200, 5000);
+    s.search("world-rejection-carries-policy", "world", n, move || scenario_strategy(prof.clone()), &case);
+}
